@@ -939,3 +939,221 @@ def extra_factor(raw, corrected, candidates=()):
         except Exception:
             pass
     return None
+
+
+def fresh_build(ctx, which):
+    """ForSys.build_force_matrix / build_pressure_matrix store, unconditionally and under the requested key, a matrix object newly built
+    from the requested frame and the object's own time series: nothing built in an earlier call (other options, other tensions, other
+    vertex positions) can be what a later solve reads"""
+    builder, store, ctor = {"force": ("build_force_matrix", "force_matrices", "new:forsys.fmatrix.ForceMatrix"),
+                            "pressure": ("build_pressure_matrix", "pressure_matrices", "new:forsys.pmatrix.PressureMatrix")}[which]
+    repo = ctx.repo
+    SELF = T.sym("self")
+    fbuild = repo.func(f"forsys.forsys.ForSys.{builder}")
+    ctx.touch(fbuild)
+    sb_ = sym.summarize(repo, fbuild.qualname)
+    when = T.sym(fbuild.params[1]) if len(fbuild.params) > 1 else T.sym("when")
+    sts = [e for e in sb_.stores(store) if e.sub]
+    ok = len(sts) == 1 and sts[0].key == when and sts[0].value[0] == "call" and sts[0].value[1] == ctor and sts[0].value[2] \
+        and sts[0].value[2][0] == T.idx(T.attr(SELF, "frames"), when) and not sts[0].conds()
+    kw = dict(sts[0].value[3]) if sts else {}
+    ok_ts = kw.get("timeseries") == T.attr(SELF, "mesh") or (sts and len(sts[0].value[2]) > 1 and T.attr(SELF, "mesh") in sts[0].value[2])
+    ctx.check(ok and ok_ts, "ALIGN", f"{fbuild.qualname} / ALIGN / {store}[when] = matrix of frames[when] (timeseries = self.mesh)", ctx.where(fbuild),
+              "key, frame and time series all belong to the requested frame; the store is unconditional",
+              f"{store} entry is {T.show(T.alpha(sts[0].key)) if sts else '?'} <- {T.show(T.alpha(sts[0].value))[:160] if sts else '?'}"
+              f"{' only under ' + str([T.show(c)[:80] for c in sts[0].conds()]) if sts and sts[0].conds() else ''}: not (always) built from the requested frame's own data")
+    return sts[0] if sts else None
+
+
+def no_mutated_defaults(ctx, roots):
+    """no function reachable from `roots` writes into a mutable default argument (a value shared by every call in the process)"""
+    repo = ctx.repo
+    n_def = 0
+    for q in sorted(repo.reachable(roots)):
+        fq = repo.functions[q]
+        for pname, d in fq.defaults().items():
+            if isinstance(d, (ast.Dict, ast.List, ast.Set)):
+                n_def += 1
+                muts = [st_ for st_ in repo.stores(fq) if st_["attr"] == "$" + pname and st_["kind"] in ("elem", "mut", "del_elem")]
+                for st_ in muts:
+                    ctx.violation("STATE", f"{q} / STATE / mutable default argument `{pname}` mutated", ctx.where(fq, st_["node"]),
+                                  f"`{fq.module.line(st_['node'].lineno)}` writes into the default value of `{pname}`, which is shared by all calls")
+    ctx.ok("STATE", "closure / STATE / mutable default arguments scanned", "forsys/*", f"{n_def} mutable defaults on the closure of {len(roots)} entry points, none mutated")
+
+
+# ------------------------------------------------------------------ results kept between calls (memoisation without invalidation)
+MEMO_DECORATORS = {"cache", "lru_cache", "cached_property"}
+CONSTRUCTORS = ("__init__", "__post_init__", "__new__")
+
+
+def _empty_value(v):
+    if isinstance(v, ast.Constant):
+        return True
+    if isinstance(v, (ast.List, ast.Tuple, ast.Set)) and not v.elts:
+        return True
+    if isinstance(v, ast.Dict) and not v.keys:
+        return True
+    if isinstance(v, ast.Call) and isinstance(v.func, ast.Name) and v.func.id in ("dict", "list", "set", "defaultdict", "OrderedDict") \
+            and not v.keywords and (not v.args or (v.func.id == "defaultdict" and all(isinstance(a, ast.Name) for a in v.args))):
+        return True
+    return False
+
+
+def _slot_reads(expr, owner, name):
+    """does `expr` read <owner>.<name> (attribute load, getattr/hasattr with the literal name, vars()/__dict__ membership)?"""
+    for n in ast.walk(expr):
+        if isinstance(n, ast.Attribute) and n.attr == name and isinstance(n.value, ast.Name) and n.value.id == owner:
+            return True
+        if isinstance(n, ast.Call) and isinstance(n.func, ast.Name) and n.func.id in ("getattr", "hasattr") and len(n.args) >= 2 \
+                and isinstance(n.args[0], ast.Name) and n.args[0].id == owner and isinstance(n.args[1], ast.Constant) and n.args[1].value == name:
+            return True
+        if isinstance(n, ast.Compare) and isinstance(n.left, ast.Constant) and n.left.value == name and \
+                any(isinstance(c, ast.Attribute) and c.attr == "__dict__" or (isinstance(c, ast.Call) and isinstance(c.func, ast.Name) and c.func.id == "vars")
+                    for c in n.comparators):
+            return True
+    return False
+
+
+def _attr_loads(node):
+    return {n.attr for n in ast.walk(node) if isinstance(n, ast.Attribute) and isinstance(n.ctx, ast.Load)}
+
+
+def mutable_attributes(repo):
+    """attribute names that some function other than a constructor writes (re-binds, stores into, mutates)"""
+    memo = repo.__dict__.setdefault("_mutable_attrs", None)
+    if memo is None:
+        memo = {}
+        for f in repo.functions.values():
+            if f.name in CONSTRUCTORS:
+                continue
+            for s in repo.stores(f):
+                if not s["attr"].startswith("$"):
+                    memo.setdefault(s["attr"], f"{f.qualname} ({f.module.relpath}:{s['node'].lineno})")
+        repo.__dict__["_mutable_attrs"] = memo
+    return memo
+
+
+def memo_sites(repo, f):
+    """memoisation in one function: a slot <self|parameter>.<name> that f fills with a computed value and, on a later call, tests and
+    reads back instead of computing; or a caching decorator.  -> [(slot description, node, attributes the reuse test looks at)]"""
+    out = []
+    for d in f.node.decorator_list:
+        dn = d.func if isinstance(d, ast.Call) else d
+        nm = dn.attr if isinstance(dn, ast.Attribute) else dn.id if isinstance(dn, ast.Name) else None
+        if nm in MEMO_DECORATORS:
+            out.append((f"@{nm}", f.node, set(), None))
+    if f.name in CONSTRUCTORS:
+        return out
+    a = f.node.args
+    owners = {x.arg for x in a.posonlyargs + a.args + a.kwonlyargs}
+    nodes = list(repo.own_nodes(f))
+    writes = {}
+    for n in nodes:
+        tv = []
+        if isinstance(n, ast.Assign):
+            tv = [(t, n.value) for t in n.targets]
+        elif isinstance(n, ast.AnnAssign) and n.value is not None:
+            tv = [(n.target, n.value)]
+        for t, v in tv:
+            b = t
+            while isinstance(b, ast.Subscript):
+                b = b.value
+            if isinstance(b, ast.Attribute) and isinstance(b.value, ast.Name) and b.value.id in owners:
+                writes.setdefault((b.value.id, b.attr), []).append((n, t, v))
+    if not writes:
+        return out
+    local_rhs = {}
+    for n in nodes:
+        if isinstance(n, ast.Assign) and len(n.targets) == 1 and isinstance(n.targets[0], ast.Name):
+            local_rhs.setdefault(n.targets[0].id, []).append(n.value)
+    branches = [n for n in nodes if isinstance(n, (ast.If, ast.IfExp))]
+    tests = [n.test for n in branches]
+    top = list(f.node.body)
+    for (owner, name), ws in sorted(writes.items()):
+        # a value computed from the slot itself (`self.n = self.n + 1`) is a counter / accumulator: state, not a kept result
+        computed = [(n, t, v) for n, t, v in ws if not _empty_value(v) and not _slot_reads(v, owner, name)]
+        if not computed:
+            continue
+        # a declared field of the object (dataclass field, class-level annotation) is its state, not a private slot for results
+        if owner == "self" and f.cls is not None and any(name in getattr(k, "fields", {}) for k in repo.mro(f.cls)):
+            continue
+        # a slot re-bound unconditionally at the top of the function is a per-call scratch value, not a result kept between calls
+        if any(n in top and isinstance(t, ast.Attribute) for n, t, v in ws):
+            first_test = min((x.lineno for x in tests if _slot_reads(x, owner, name)), default=None)
+            if first_test is not None and any(n in top and isinstance(t, ast.Attribute) and n.lineno < first_test for n, t, v in ws):
+                continue
+        # local aliases of the slot (`cached = getattr(self, "_c", None)`)
+        aliases = {ln for ln, rhs in local_rhs.items() if all(_slot_reads(r, owner, name) for r in rhs)}
+        guards = []
+        for br in branches:
+            x = br.test
+            if not (_slot_reads(x, owner, name) or any(isinstance(m, ast.Name) and m.id in aliases for m in ast.walk(x))):
+                continue
+            # the test decides between reusing and computing: the filling store sits in one of its arms, or one arm leaves the
+            # function (hands out the stored value) and the store follows
+            inside = any(n is m for n, t, v in computed for m in ast.walk(br))
+            leaves = isinstance(br, ast.If) and any(isinstance(m, ast.Return) for part in (br.body, br.orelse) for st_ in part for m in ast.walk(st_)) \
+                and any(n.lineno > br.lineno for n, t, v in computed)
+            feeds = isinstance(br, ast.IfExp) and any(n.lineno >= br.lineno for n, t, v in computed)
+            if inside or leaves or feeds:
+                guards.append(x)
+        if not guards:
+            continue
+        key_attrs = set()
+        for g in guards:
+            key_attrs |= _attr_loads(g)
+            for m in ast.walk(g):
+                if isinstance(m, ast.Name):
+                    key_attrs.add("$" + m.id)
+                    if m.id in local_rhs and m.id not in aliases:
+                        for r in local_rhs[m.id]:
+                            key_attrs |= _attr_loads(r) | {"$" + x.id for x in ast.walk(r) if isinstance(x, ast.Name)}
+        key_attrs.discard(name)
+        out.append((f"{owner}.{name}", computed[0][0], key_attrs, guards[0]))
+    return out
+
+
+def no_memo(ctx, extra_roots=()):
+    """No function the obligations of this property read (nor anything those functions call) keeps a computed result on an object and
+    hands it out again on a later call while the data it was computed from may have changed in between: the package moves vertices,
+    re-solves tensions and re-builds systems in place, and nothing invalidates such a slot."""
+    repo = ctx.repo
+    roots = sorted(q for q in set(ctx.functions_analysed) | set(extra_roots) if q in repo.functions)
+    closure = sorted(q for q in repo.reachable(roots) if not repo.functions[q].module.name.endswith((".plot", ".auxiliar")))
+    mutable = mutable_attributes(repo)
+    n_sites = 0
+    for q in closure:
+        f = repo.functions[q]
+        for slot, node, key_attrs, guard in memo_sites(repo, f):
+            n_sites += 1
+            inputs = set()
+            for r in sorted(repo.reachable([q])):
+                inputs |= _attr_loads(repo.functions[r].node)
+            slot_name = slot.split(".")[-1]
+            # writers of the slot elsewhere (other than constructors initialising it empty) are invalidation / ordinary state: not a memo
+            others = [(g, s) for g, s in repo.writers_of(slot_name) if g.qualname != q and not (g.name in CONSTRUCTORS and _empty_value(getattr(s["node"], "value", None) or ast.Constant(None)))] \
+                if not slot.startswith("@") else []
+            if others:
+                continue
+            stale = sorted(x for x in inputs if x in mutable and x not in key_attrs and x != slot_name)
+            key = f"{q} / STATE / result kept in `{slot}` and reused by later calls"
+            a_ = f.node.args
+            params = [x.arg for x in a_.posonlyargs + a_.args + a_.kwonlyargs] + [x.arg for x in (a_.vararg, a_.kwarg) if x is not None]
+            used = {n.id for n in ast.walk(f.node) if isinstance(n, ast.Name) and isinstance(n.ctx, ast.Load)}
+            forgotten = [x for x in params if x not in ("self", "cls", slot.split(".")[0]) and x in used and "$" + x not in key_attrs] \
+                if not slot.startswith("@") else []
+            if forgotten and not stale:
+                ctx.violation("STATE", key, ctx.where(f, node),
+                              f"`{f.module.line(node.lineno)}`: the stored result is handed out again"
+                              f"{' when `' + unparse(guard)[:80] + '`' if guard is not None else ''} whatever the argument(s) "
+                              f"{', '.join(forgotten)} of the later call: a call with other arguments reports the result of the first one")
+            elif stale:
+                ctx.violation("STATE", key, ctx.where(f, node),
+                              f"`{f.module.line(node.lineno)}`: the stored result is handed out again"
+                              f"{' when `' + unparse(guard)[:80] + '`' if guard is not None else ''}, but it was computed from "
+                              f"{', '.join('.' + x for x in stale[:6])}{' ...' if len(stale) > 6 else ''} which the package changes in place "
+                              f"(e.g. {mutable[stale[0]]}) and nothing resets the slot: a later call after such a change reports the old value")
+            else:
+                ctx.ok("STATE", key, ctx.where(f, node), "every changeable attribute the result is computed from takes part in the reuse test")
+    ctx.ok("STATE", "closure / STATE / no result of an earlier call is reused without invalidation", "forsys/*",
+           f"{len(closure)} functions reachable from the {len(roots)} functions this property reads; {n_sites} memoisation site(s) examined")
